@@ -41,9 +41,45 @@ def _class_prefix(inst):
     return inst[:last + 2] if last >= 0 else ""
 
 
-def _pick_callee(caller_rec, shapes):
+def _leaf_targs(inst):
+    """non-type template arguments of the function itself in an instantiation name: 'a<b>::f<true, 3>' -> ['1', '3']"""
+    if not inst.endswith(">"):
+        return None
+    depth = 0
+    for i in range(len(inst) - 1, -1, -1):
+        ch = inst[i]
+        if ch == ">":
+            depth += 1
+        elif ch == "<":
+            depth -= 1
+            if depth == 0:
+                args = inst[i + 1:-1]
+                out, d, cur = [], 0, ""
+                for c in args:
+                    if c in "<(":
+                        d += 1
+                    elif c in ">)":
+                        d -= 1
+                    if c == "," and d == 0:
+                        out.append(cur.strip())
+                        cur = ""
+                    else:
+                        cur += c
+                out.append(cur.strip())
+                return [{"true": "1", "false": "0"}.get(x, x) for x in out]
+    return None
+
+
+def _pick_callee(caller_rec, shapes, call=None):
     if len(shapes) == 1:
         return shapes[0]
+    if call is not None and call.get("targs"):
+        want = [str(int(x)) if isinstance(x, bool) else str(x) for x in call["targs"]]
+        for s in shapes:
+            for i in s.get("insts", []):
+                la = _leaf_targs(i)
+                if la is not None and la[:len(want)] == want:
+                    return s
     prefixes = {_class_prefix(i) for i in caller_rec.get("insts", [])}
     for s in shapes:
         if any(_class_prefix(i) in prefixes or any(i.startswith(p) for p in prefixes if p) for i in s.get("insts", [])):
@@ -92,6 +128,8 @@ def _splice(rec, blk, idx, call_nid, cal, serial):
         if not (t.endswith("&") or t.endswith("&&")) and j < len(args):
             byval[name] = pref + name
     new_nodes = []
+    ret_refs = []
+    retvar = pref + "ret"
     for n in cal["nodes"]:
         m = copy.deepcopy(n)
         m["c"] = [(c + N0 if c >= 0 else c) for c in m.get("c", [])]
@@ -118,12 +156,24 @@ def _splice(rec, blk, idx, call_nid, cal, serial):
         elif m["k"] == "this" and not is_lambda and obj is not None:
             m = {"k": "cast", "ck": "inl", "l": m.get("l", 0), "t": m.get("t", ""), "c": [obj]}
         elif m["k"] == "return":
-            m["k"] = "inl_return"
+            # `return X;` becomes `<ret var> = X;` followed by the jump to the continuation; the call expression reads <ret var>
+            if m.get("c") and m["c"][0] >= 0:
+                ret_refs.append(len(new_nodes))          # patched below (needs the id of a fresh reference node)
+                m["k"] = "bin"
+                m["op"] = "="
+                m["inl_return"] = True
+                m["inl_value"] = m["c"][0]
+            else:
+                m["k"] = "inl_return"
         elif m["k"] == "autodtor" and m.get("name") in declared:
             m["name"] = pref + m["name"]
         m["inl"] = serial
         new_nodes.append(m)
     nodes.extend(new_nodes)
+    for k_ in ret_refs:
+        m = new_nodes[k_]
+        nodes.append({"k": "ref", "dk": "local", "name": retvar, "l": m.get("l", 0), "t": cal.get("ret", ""), "c": [], "inl": serial})
+        m["c"] = [len(nodes) - 1, m["inl_value"]]
     # by-value parameters: synthetic declarations at the callee entry
     for name, newname in byval.items():
         j = pname[name]
@@ -161,8 +211,79 @@ def _splice(rec, blk, idx, call_nid, cal, serial):
     if rec["exit"] == blk["id"]:
         rec["exit"] = cont_id
     call["inlined"] = cal["pat"]
-    call["inl_rets"] = [m["c"][0] for m in new_nodes if m["k"] == "inl_return" and m.get("c") and m["c"][0] >= 0]
+    call["inl_rets"] = [m["inl_value"] for m in new_nodes if m.get("inl_return")]
+    if call["inl_rets"]:
+        call["inl_ret_var"] = retvar
+    _thread_constant_returns(rec, cont, call_nid, new_nodes, N0, BO, cal)
     return cont
+
+
+def _cond_on_call(nodes, cont, call_nid):
+    """if the continuation block only tests the value of the inlined call (possibly through `!`, casts, `== true/false` or a local initialised
+    from it), returns the polarity (True: the block's true edge is taken when the call returned true); else None"""
+    if "cond" not in cont or len(cont.get("succ", [])) != 2:
+        return None
+    pol = True
+    nid = cont["cond"]
+    alias = set()
+    for e in cont["elems"]:
+        n = nodes[e]
+        if n["k"] == "decl" and len(n.get("vars", [])) == 1 and "init" in n["vars"][0] and _strip_casts(nodes, n["vars"][0]["init"]) == call_nid:
+            alias.add(n["vars"][0]["name"])
+    for _ in range(12):
+        n = nodes[nid]
+        c = [x for x in n.get("c", []) if x >= 0]
+        if nid == call_nid:
+            break
+        if n["k"] == "un" and n.get("op") == "!" and c:
+            pol = not pol
+            nid = c[0]
+        elif n["k"] == "cast" and c:
+            nid = c[0]
+        elif n["k"] == "ref" and n.get("dk") == "local" and n.get("name") in alias:
+            nid = call_nid
+        elif n["k"] == "bin" and n.get("op") in ("==", "!=") and len(c) == 2 and nodes[c[1]]["k"] == "lit" and nodes[c[1]].get("v") in (0, 1):
+            if (n["op"] == "==") != bool(nodes[c[1]]["v"]):
+                pol = not pol
+            nid = c[0]
+        else:
+            return None
+    else:
+        return None
+    # the block must not do anything else
+    for e in cont["elems"]:
+        n = nodes[e]
+        if e == call_nid or n["k"] in ("un", "cast", "lit", "ref"):
+            continue
+        if n["k"] == "decl" and len(n.get("vars", [])) == 1 and n["vars"][0]["name"] in alias:
+            continue
+        if n["k"] == "bin" and n.get("op") in ("==", "!="):
+            continue
+        return None
+    return pol
+
+
+def _thread_constant_returns(rec, cont, call_nid, new_nodes, N0, BO, cal):
+    """jump threading: `if (!helper(..)) return empty;` where helper has `return true;` / `return false;` exits - each constant return jumps
+    straight to the branch the caller takes for that value, so the decision stays control dependent on the helper's own conditions"""
+    nodes = rec["nodes"]
+    pol = _cond_on_call(nodes, cont, call_nid)
+    if pol is None:
+        return
+    by_id = {b["id"]: b for b in rec["blocks"]}
+    for b in cal["blocks"]:
+        nb = by_id.get(BO + b["id"])
+        if nb is None or not nb["elems"]:
+            continue
+        rets = [e for e in nb["elems"] if nodes[e].get("inl_return")]
+        if not rets:
+            continue
+        v = nodes[_strip_casts(nodes, nodes[rets[-1]]["inl_value"])]
+        if v["k"] == "lit" and v.get("v") in (0, 1):
+            target = cont["succ"][0] if bool(v["v"]) == pol else cont["succ"][1]
+            if target is not None:
+                nb["succ"] = [target]
+                nb["threaded"] = True
 
 
 def inline_new_helpers(shape_recs, known):
@@ -191,7 +312,7 @@ def inline_new_helpers(shape_recs, known):
                     e = blk["elems"][i]
                     n = rec["nodes"][e]
                     if n["k"] == "call" and n.get("callee") in new_pats and not n.get("inlined") and n.get("callee") != rec["pat"] and done < MAX_INLINES_PER_FN:
-                        cal = _pick_callee(rec, by_pat[n["callee"]])
+                        cal = _pick_callee(rec, by_pat[n["callee"]], n)
                         serial[0] += 1
                         done += 1
                         cont = _splice(rec, blk, i, e, cal, serial[0])
